@@ -1676,3 +1676,42 @@ def r10s_scaled_scanlines(ck, P):
                 else:
                     ck.ok(R, where)
     ck.note('C02-R10s: %d scanline kernel/operator/format combinations analysed; not analysable: %s' % (analysed, skipped))
+
+
+def r21_mmx_lane_consistency(ck, P, rid='C02-R21'):
+    """sibling agreement between the two pixels of an MMX register: pack8888 (lo, hi) re-assembles two pixels; everything that went into
+    `lo` was expanded from lane 0 of its registers and everything that went into `hi` from lane 1."""
+    from .. import build, facts as _facts
+    R = ck.rule(rid, 'in the MMX fast paths, the first argument of every pack8888 is computed only from lane 0 (expand8888 / expandx888 (v, 0)) and the second only from lane 1 of the registers it reads: a pixel is combined with its own destination and mask, not with its neighbour\'s', floor=14)
+    if 'pixman-mmx.c' not in P.units:
+        ck.incomplete(R, 'pixman-mmx.c is not part of the build'); return
+    PS = _facts.Program(build.library_facts('S', only={'pixman-mmx.c'}))
+    u = PS.units['pixman-mmx.c']
+    n = 0
+    for fn, f in sorted(u.functions.items()):
+        for c in f.calls('pack8888'):
+            res = []
+            for k in (0, 1):
+                seen = set(); work = [c.a[k]]; pos = {}
+                while work:
+                    o = work.pop()
+                    if o[0] != 'v' or o[1] in seen:
+                        continue
+                    seen.add(o[1]); x = f.by_id[o[1]]
+                    if x.op == 'call' and x.callee in ('expand8888', 'expandx888') and len(x.a) == 2 and x.a[1][0] == 'c':
+                        pos.setdefault(int(x.a[1][1]), x); continue
+                    if x.op in ('load', 'phi'):
+                        continue
+                    work.extend(a for a in x.a if a)
+                res.append(pos)
+            if not res[0] and not res[1]:
+                continue
+            n += 1; ck.saw(f)
+            wrong = [(k, p_, x) for k in (0, 1) for p_, x in res[k].items() if p_ != k]
+            if wrong:
+                k, p_, x = wrong[0]
+                ck.violation(R, fn, 'pack8888 at %s' % c.loc(), '%s assembles pixel %d of a pair from a value expanded from lane %d (%s at %s): that pixel is combined with the destination (or source) of its neighbour, so one pixel in every block differs from what every other implementation of the operation computes' % (fn, k, p_, x.callee, x.loc()), x.loc())
+            else:
+                ck.ok(R, '%s: pack8888 at %s' % (fn, c.loc()))
+    if n == 0:
+        ck.incomplete(R, 'no pack8888 call with lane-expanded inputs found')
